@@ -120,17 +120,14 @@ func checkTOTPEntry(c *Check, w *World, tb *TB, pfx string, entry *ssa.Function,
 	per := periodTerm(fn, pp, "DefaultTOTPParam")
 	wantCtr := fmt.Sprintf("calldyn(gval(otp.TimeCounterFunc); param(%s#%d); %s)", fn, tp, per)
 	ct := tb.Norm(h.Args[roles.Counter])
-	// in validation the counter is centre + conv(i): compare the centre
+	// in validation the counter is centre + offset (loop counter, window size): compare the centre, i.e. the one
+	// time-step call in the linear form of the counter argument
 	centre := ct
-	if ct.Op == "bin" && ct.Sym == "+" {
-		for k := 0; k < 2; k++ {
-			if ct.Args[k].Op == "calldyn" {
-				centre = ct.Args[k]
-			}
-			// offset-form window (checked by R04.2/.3): (centre - s) + i
-			if a := ct.Args[k]; a.Op == "bin" && a.Sym == "-" && a.Args[0].Op == "calldyn" {
-				centre = a.Args[0]
-			}
+	lm := &linMaker{w: w, modular: true}
+	lf := lm.of(ct)
+	for a, k := range lf.coef {
+		if t := lm.atomTerms[a]; k == 1 && t != nil && t.Op == "calldyn" {
+			centre = t
 		}
 	}
 	ok := centre.String() == wantCtr
